@@ -255,6 +255,26 @@ int main(int argc, char **argv)
                 int s; std::string dx, dy; is >> s >> dx >> dy;
                 sc.r->moveShape(sc.shapes[s], num(dx), num(dy));
             }
+            else if (cmd == "APPLYREC")
+            {
+                // the documented client protocol after a transaction: move every live junction to its recommendedPosition()
+                // (mode 0: every junction, also when that is where it already is; mode 1: only those whose recommendation differs)
+                int mode = 0; is >> mode;
+                std::vector<JunctionRef *> js;
+                for (ObstacleList::iterator o = sc.r->m_obstacles.begin(); o != sc.r->m_obstacles.end(); ++o)
+                {
+                    JunctionRef *j = dynamic_cast<JunctionRef *> (*o);
+                    if (j && !queuedForRemoval(sc.r, j)) js.push_back(j);
+                }
+                for (size_t k = 0; k < js.size(); ++k)
+                {
+                    Point p = js[k]->position(), rp = js[k]->recommendedPosition();
+                    bool same = (p.x == rp.x && p.y == rp.y);
+                    if (mode == 1 && same) continue;
+                    printf("RECMOVE %u %d %.17g %.17g %.17g %.17g\n", js[k]->id(), (int) same, p.x, p.y, rp.x, rp.y);
+                    sc.r->moveJunction(js[k], rp);
+                }
+            }
             else if (cmd == "TX")
             {
                 std::map<const void *, unsigned> cBefore = sc.knownC, jBefore = sc.knownJ;
